@@ -379,10 +379,18 @@ namespace
     struct MixedExec
     {
         std::vector<Call>* log;
+        // generic on purpose: a dispatcher that walks the wrong type list instantiates run() with arguments of the
+        // other hierarchy; that must show up as a wrong handler at run time, not as a harness that does not compile
+        static int cid(const Color& c) { return color_id(c); }
+        static int cid(const Shape&) { return -50; }
+        static int sid(const Shape& s) { return type_id(s); }
+        static int sid(const Color&) { return -50; }
+        static const void* base(const Shape& s) { return &s; }
+        static const void* base(const Color& c) { return &c; }
         template <class L, class R> int run(L& l, R& r)
         {
-            log->push_back(Call{100 + type_id(l) * 10 + color_id(r), {static_cast<Shape*>(&l), static_cast<Color*>(&r)}, nullptr});
-            if (typeid(L) != typeid(l) || typeid(R) != typeid(r)) log->back().handler = -1;
+            log->push_back(Call{100 + sid(l) * 10 + cid(r), {base(l), base(r)}, nullptr});
+            if (typeid(L) != typeid(l) || typeid(R) != typeid(r) || !std::is_base_of<Shape, L>::value || !std::is_base_of<Color, R>::value) log->back().handler = -1;
             return log->back().handler;
         }
         int on_error(Shape& l, Color& r) { log->push_back(Call{0, {&l, &r}, nullptr}); return 0; }
